@@ -52,7 +52,8 @@ def build_candles(item):
     from index `cut` on replaced by another valid lattice walk (timestamps kept)."""
     w = item.get('walk', {})
     out, warm = {}, {}
-    for si in range(item['nsym']):
+    nall = item['nsym'] + (1 if item.get('dsym') else 0)      # a data-only symbol (never traded) gets its own series
+    for si in range(nall):
         sym = SYMS[si]
         a = S.lattice_walk(item['n'], item['seed'] * 131 + si, start=w.get('start', 100), step=w.get('step', 2),
                            wick=w.get('wick', 2), flat_p=w.get('flat_p', 0.15), gap_p=w.get('gap_p', 0.1))
@@ -86,7 +87,10 @@ def readable(item):
     for tf in ['1m', item['ttf']] + list(item.get('dtfs', [])):
         if tf not in tfs:
             tfs.append(tf)
-    return [(SYMS[si], tf) for si in range(item['nsym']) for tf in tfs]
+    res = [(SYMS[si], tf) for si in range(item['nsym']) for tf in tfs]
+    for sym, tf in item.get('dsym', []):          # a symbol that is ONLY a data route: its 1m candles and its own timeframe
+        res += [(sym, '1m'), (sym, tf)]
+    return res
 
 
 def field_names(item):
@@ -259,6 +263,7 @@ def make_candle_policy(item, rec):
 def routes_of(item):
     routes = [{'symbol': SYMS[si], 'timeframe': item['ttf']} for si in range(item['nsym'])]
     data = [{'symbol': SYMS[si], 'timeframe': tf} for si in range(item['nsym']) for tf in item.get('dtfs', [])]
+    data += [{'symbol': sym, 'timeframe': tf} for sym, tf in item.get('dsym', [])]
     return routes, data
 
 
